@@ -30,6 +30,7 @@ func init() {
 }
 
 func rulesC13(c *Ctx) {
+	rulePutFresh(c, "C13.PUTFRESH")
 	ruleC13Width(c)
 	ruleC13Checker(c)
 	ruleC13Nil(c)
